@@ -355,16 +355,47 @@ def _run_transfer(c, sim):
     method = tt.method
     fitted = False
     cur = None
-    for k in range(ch.integer("w", 2, 7, "nops")):
-        op = ch.choice("w", ["fit", "transform", "fit", "fit-fail", "transform"], "op")
+    frozen_ref = None  # state of the wrapped estimator when the transfer was last fitted
+    follow_original = False  # copy_estimator=False and the user retrained the shared object
+    for k in range(ch.integer("w", 2, 8, "nops")):
+        op = ch.choice("w", ["fit", "transform", "fit", "fit-fail", "transform", "retrain-original", "set-estimator"], "op")
         if len(c.scenario["ops"]) < 16:
             c.scenario["ops"].append(op)
+        if op == "retrain-original":
+            # the user retrains (or replaces) the estimator they own between two
+            # fits of the transfer: the next fit must pick up its current state
+            other = dataB if ch.boolean("w", 0.5, "retrain-on") else dataA
+            sim.env()
+            original.fit(other["X"], _target(name, other))
+            dig0 = _digest(original, probe, all_methods)
+            c.probe("original_retrained_between_fits")
+            if not copy_estimator:
+                frozen_ref = None  # the transfer holds a reference: it follows
+                follow_original = True
+            continue
+        if op == "set-estimator":
+            newest = MODELS[name][0]()
+            sim.env()
+            newest.fit(dataB["X"], _target(name, dataB))
+            ok, r = U.sut(c, "set_params(estimator)", tt.set_params, estimator=newest)
+            if not ok:
+                sim.viol("set_params-raised", ("transfer", type(r).__name__), "set_params(estimator=...) raised %s" % U.short_exc(r))
+                return
+            original = newest
+            dig0 = _digest(original, probe, all_methods)
+            fitted = False
+            c.probe("estimator_replaced_between_fits")
+            continue
         if op in ("fit", "fit-fail"):
             cur = dataA if ch.boolean("w", 0.5, "which") else dataB
             fire = [(-1, type(original).__name__, "fit", 0)] if op == "fit-fail" else ()
             sim.env(fire)
             args = (cur["X"], _target(name, cur)) + ((cur["w"],) if cur["w"] is not None else ())
+            snapshot = pickle.loads(pickle.dumps(original))
             ok, r = U.sut(c, op, tt.fit, *args)
+            if ok:
+                frozen_ref = snapshot if copy_estimator else None
+                follow_original = False
             fired = bool(c.fault_plan.fired)
             if op == "fit-fail":
                 if not ok:
@@ -406,7 +437,9 @@ def _run_transfer(c, sim):
                 continue
             out = numpy.asarray(out)
             c.log.ev("result", k, C.ahash(out))
-            if trainable:
+            if follow_original:
+                want = numpy.asarray(getattr(original, method)(cur["Xp"]))
+            elif trainable:
                 ref = MODELS[name][0]()
                 sim.env()
                 args = (cur["X"], _target(name, cur)) + ((cur["w"],) if cur["w"] is not None and name != "pca" else ())
@@ -416,7 +449,9 @@ def _run_transfer(c, sim):
                     ref.fit(*args)
                 want = numpy.asarray(getattr(ref, method)(cur["Xp"]))
             else:
-                want = numpy.asarray(getattr(original, method)(cur["Xp"]))
+                # copy: the state of the original when fit was called; reference: its current state
+                src = frozen_ref if (copy_estimator and frozen_ref is not None) else original
+                want = numpy.asarray(getattr(src, method)(cur["Xp"]))
             if out.shape != want.shape or not U.arrays_equal(out, want, 1e-9, 1e-12):
                 sim.viol(
                     "transparency",
